@@ -243,6 +243,7 @@ func (t *Target) WaitUntilHealthy(timeout time.Duration) bool {
 func (t *Target) HealthCheckCompleted(success bool) {
 	previousState := t.state
 	newState := t.state
+	becameHealthy := false
 
 	t.withInflightLock(func() {
 		switch success {
@@ -250,7 +251,7 @@ func (t *Target) HealthCheckCompleted(success bool) {
 			switch t.state {
 			case TargetStateAdding:
 				t.state = TargetStateHealthy
-				close(t.becameHealthy)
+				becameHealthy = true
 			default:
 				t.state = TargetStateHealthy
 			}
@@ -271,6 +272,11 @@ func (t *Target) HealthCheckCompleted(success bool) {
 		if t.stateConsumer != nil {
 			t.stateConsumer.TargetStateChanged(t)
 		}
+	}
+
+	if becameHealthy {
+		// Signal waiters only after the load balancer has seen the change.
+		close(t.becameHealthy)
 	}
 }
 
